@@ -723,8 +723,9 @@ func checkInsertion(c *Ctx, rule string, fn *ssa.Function, field string) int {
 
 func checkC16(c *Ctx) {
 	c.Rule("C16.set", "set algebra by truth table: Overlay.Missing = base.Missing ∩ overlay.Missing; Overlay.Blocks = base.Blocks ∪ overlay.Blocks; in Load the ranges read from the overlay are [addr,addr+w) \\ overlay.Missing and the ranges read from the base are overlay.Missing")
-	c.Rule("C16.ops", "the interval operators the set algebra stands on: the per-interval helpers of MapIntersect and MapComplement, walked for every ordering of the endpoints of an interval and a sorted list of up to 3 intervals, emit exactly the intersection / difference and report as consumed only list elements that end at or before the interval; the drivers give every interval of the first operand to the helper with the unconsumed rest of the second, advance the rest by the reported count and append every piece")
+	c.Rule("C16.ops", "the interval operators the set algebra stands on: MapUnion, MapComplement and MapIntersect, walked for every pair of sets of up to 2 intervals with endpoints in 0..6, yield the normal form of union, difference and intersection without leaving their lists; their per-interval helpers (when they have one), walked for every ordering of an interval and a sorted list of up to 3, emit exactly the pieces and report as consumed only list elements that end at or before the interval")
 	checkIntervalOps(c, "C16.ops")
+	checkIntervalOperators(c, map[string]string{"MapUnion": "C16.ops", "MapComplement": "C16.ops", "MapIntersect": "C16.ops"})
 	c.Rule("C16.ro", "the base layer is read-only: on Overlay.base only Load, Missing and Blocks are ever invoked; Overlay.Store delegates to the overlay layer with its own arguments; no Store is invoked on anything obtained from Overlay.Base()")
 	c.Rule("C16.load", "Overlay.Load: nothing missing in the overlay -> overlay.Load(addr,w); everything missing -> base.Load(addr,w); otherwise every range is read with (Begin(), Len()) of its interval, a failed base read returns (nil,false), pieces are sorted by Begin(), the first is taken as is and every other piece is shifted by (Begin()-addr) bytes with Lsh and OR-ed at width w")
 	checkSetTerm(c, "C16.set", "(*"+pkgMemory+".Overlay).Missing", []string{"base.Missing", "overlay.Missing"},
@@ -989,7 +990,7 @@ func checkC16(c *Ctx) {
 	sortOK := false
 	for _, st := range DeepCalls(ld, enterLd) {
 		cs := st.Call()
-		if sortsAscending(cs.Common(), func(v ssa.Value) bool { return matches(v, Method("Begin", Any())) }) {
+		if sortsAscending(cs.Common(), isBeginKey) {
 			sortOK = true
 		}
 	}
@@ -1394,4 +1395,14 @@ func checkNarrowScaling(c *Ctx, rule string, pkgs []string) {
 		}
 	}
 	c.RequireCount(rule+" scalings of a widened 8-bit quantity", nWide, 1)
+}
+
+// isBeginKey: v is the begin address of an element: x.Begin() or a direct
+// read of the field a Begin getter returns (begin).
+func isBeginKey(v ssa.Value) bool {
+	if matches(v, Method("Begin", Any())) {
+		return true
+	}
+	n, _, ok := FieldNameOfRead(v)
+	return ok && n == "begin"
 }
